@@ -131,7 +131,7 @@ type lgFn struct {
 	decl     *ast.FuncDecl
 	lean     string
 	mono     bool // rendered in the monad
-	fuel     bool // contains, or calls something that contains, a `for {}`
+	fuel     bool // takes the bound of `for {}` (every function in the monad)
 	usesCE   bool
 	recv     string
 	recvKind string
@@ -1201,6 +1201,9 @@ func runLog(repo, out string) {
 		}
 	}
 	for _, f := range t.fns {
+		// every function in the monad takes the bound, whether or not a loop is reachable from it now:
+		// the signatures the obligations are stated for do not change when a loop comes or goes
+		f.fuel = f.mono
 		if f.usesCE && f.mono {
 			fail("log: %s: %s takes a CheckedEntry and is not a plain definition", at(f.decl), f.key)
 		}
@@ -1212,7 +1215,7 @@ func runLog(repo, out string) {
 	b.WriteString("/-! REGENERATED on every run by harness/cmd/go2lean -spec log from " + lgCtxFile + " and " + lgLvlFile + ". Do not edit.\n" +
 		"Each definition follows the Go function of the same name statement by statement; Model/LogRt.lean fixes what\n" +
 		"the primitives mean.  Functions that touch holders, contexts or the global logger are `do` blocks in `LogRt.M`\n" +
-		"(`fuel` bounds `for {}`), the others plain definitions; a func literal is lifted to `<function>.func<n>` over the\n" +
+		"(all take `fuel`, the bound of `for {}`), the others plain definitions; a func literal is lifted to `<function>.func<n>` over the\n" +
 		"variables it captures; a receiver `c *customLevelCoreWrapper` is its two fields; `z` is zap (`LogRt.Zap`).\n" +
 		"`logHolder.update.steps` is `(*logHolder).update` once more, as the step program of one goroutine (`LogRt.Prog`).\n")
 	for _, k := range sortedKeys(lgSkipped) {
